@@ -29,6 +29,63 @@ theorem enter_calls_preorder (c : Cfg) (kd : Kind) (its : Items) :
 /-- a scalar root is rejected (`TypeError: expected remappable root`) -/
 theorem scalar_root_rejected (c : Cfg) (a : Atom) : remapIter c (.leaf a) = none := rfl
 
+/-- with the default callbacks the result is an equal copy: same container types, same keys, same
+    order (tree level: structural equality; `Canon` = dict keys distinct, sequence items numbered
+    0,1,2,…, set members pairwise not `==` — facts about every Python value). -/
+theorem default_is_deep_copy (kd : Kind) (its : Items) (hc : Canon (.node kd its)) :
+    remapIter copyCfg (.node kd its) = some (.node kd its) := by
+  simp [remapIter, remapFinal_eq, remapRec_copy _ hc]
+
+/-- {'a': [1, frozenset({None})], None: ()} -/
+def exT : Val :=
+  .node .dict (.cons (.str "a") (.node .list (.cons (.int 0) (.leaf (.int 1))
+      (.cons (.int 1) (.node .fset (.cons (.int 0) (.leaf .none) .nil)) .nil)))
+    (.cons .none (.node .tuple .nil) .nil))
+
+example : Canon exT := by
+  simp [exT, Canon, CanonItems, Items.toList, renumber, DistinctBy, Kind.isSet]
+
+/-- container kinds are preserved by `default_exit`, whatever the visit callback does -/
+theorem kinds_preserved (vf : VisitFn Val) (kd : Kind) (its : Items) :
+    ∃ its', remapIter ⟨vf, defaultExit⟩ (.node kd its) = some (.node kd its') := by
+  simp [remapIter, remapFinal_eq, remapRec, defaultExit]
+
+/- Full statement: every `(path, value)` that `research` reports for a nested item satisfies
+   `getPath root path = some value`.  It is FALSE for the code as it is (members of sets /
+   frozensets are reported with their enumeration index, and `get_path` cannot index a set):
+   see `research_set_path_not_retrievable`.  Proved: all reported paths that do not lead into
+   a set / frozenset (`setOnPath root path = false`, a decidable condition). -/
+theorem paths_correct_partial (q : Path → Key → Val → Bool) (kd : Kind) (its : Items)
+    (hw : WFKeys (.node kd its)) (pv : Path × Val)
+    (hm : pv ∈ researchOf q (nestedLog (.node kd its)))
+    (hs : setOnPath (.node kd its) pv.1 = false) :
+    getPath (.node kd its) pv.1 = some pv.2 := by
+  simp only [researchOf, List.mem_map, List.mem_filter] at hm
+  obtain ⟨e, ⟨he, _⟩, rfl⟩ := hm
+  exact nested_paths_retrievable kd its hw e he hs
+
+/-- [frozenset({1})] -/
+def exS : Val := .node .list (.cons (.int 0) (.node .fset (.cons (.int 0) (.leaf (.int 1)) .nil)) .nil)
+
+/-- {'k': [7, (None,)]}: a nested path that meets the hypotheses of `paths_correct_partial` -/
+def exP : Val :=
+  .node .dict (.cons (.str "k") (.node .list (.cons (.int 0) (.leaf (.int 7))
+    (.cons (.int 1) (.node .tuple (.cons (.int 0) (.leaf .none) .nil)) .nil))) .nil)
+
+example : WFKeys exP ∧ ([.str "k", .int 1, .int 0], Val.leaf .none) ∈ researchOf (fun _ _ _ => true) (nestedLog exP) ∧
+    setOnPath exP [.str "k", .int 1, .int 0] = false := by
+  simp [exP, WFKeys, WFKeysItems, keysOf, effKey, researchOf, nestedLog, preLogItems, preLog, setOnPath,
+    lookupItems, Kind.isSet]
+
+/-- the negation of the full path clause, by a witness: `research([frozenset({1})])` reports
+    `((0, 0), 1)` and `get_path` fails on it (known finding C08-research-set-paths) -/
+theorem research_set_path_not_retrievable :
+    ∃ root q pv, WFKeys root ∧ pv ∈ researchOf q (nestedLog root) ∧ getPath root pv.1 = none :=
+  ⟨exS, fun _ _ _ => true, ([.int 0, .int 0], .leaf (.int 1)),
+   by simp [exS, WFKeys, WFKeysItems], by simp [exS, researchOf, nestedLog, preLogItems, preLog, effKey],
+   by simp [exS, getPath, getChild, lookupItems, effKey, Kind.isSet]⟩
+
+
 /-! ## heap level -/
 
 /-- `remap` terminates on every heap — shared sub-objects and reference cycles included — within
@@ -52,5 +109,77 @@ theorem enter_exit_once_per_id (c : HCfg) (h : Heap) (root : Obj) :
   rcases (heap_terminates c h root).2 with h1 | h1
   · exact absurd he h1
   · simpa [h1, frameIds] using hp
+
+/-- an object referenced several times is rebuilt once (`enter_exit_once_per_id`) and stays shared:
+    every visit of a reference to container `id` that happens after `id` has been exited is handed
+    one and the same rebuilt object — the one the registry holds when `remap` returns. -/
+theorem shared_stays_shared (c : HCfg) (h : Heap) (root : Obj) (id : Nat) (p : Path) (k : Key) (v : Obj)
+    (hv : Ev.visit p k (.ref id) v ∈ afterExit id (hfinal c h root).trace) :
+    lookup id (hfinal c h root).reg = some v :=
+  SharedInv_final c h root id p k v hv
+
+/-- t = (l, 1); l = [t] -/
+def exTupleCycle : Heap :=
+  [⟨.tuple, [(.int 0, .ref 1), (.int 1, .atom (.int 1))]⟩, ⟨.list, [(.int 0, .ref 0)]⟩]
+
+/-- l = [l, 5] -/
+def exListCycle : Heap := [⟨.list, [(.int 0, .ref 0), (.int 1, .atom (.int 5))]⟩]
+
+/-- x = [7]; root = [x, x] -/
+def exShared : Heap := [⟨.list, [(.int 0, .ref 1), (.int 1, .ref 1)]⟩, ⟨.list, [(.int 0, .atom (.int 7))]⟩]
+
+def copyH : HCfg := ⟨hkeepVisit, true⟩
+
+/-- non-vacuity of `shared_stays_shared`: the second reference to `x` is visited after `x` was exited -/
+example : Ev.visit [] (.int 1) (.ref 1) (.ref 1) ∈ afterExit 1 (hfinal copyH exShared (.ref 0)).trace := by
+  decide +kernel
+
+/-- a cycle through mutable containers is copied as a cycle … -/
+example :
+    (hfinal copyH exListCycle (.ref 0)).value = .ref 0 ∧
+    (hfinal copyH exListCycle (.ref 0)).out.map (·.items) =
+      [[(.int 0, .ref 0), (.int 1, .atom (.int 5))]] := by
+  decide +kernel
+
+/-- … but the clause "the result is an equal deep copy" is FALSE for a cycle that passes through a
+    tuple (known finding C08-tuple-cycle-backref): in the rebuilt `t' = (l', 1)`, `l'[0]` is the empty
+    placeholder tuple `out[0]`, not `t' = out[2]`. -/
+theorem tuple_cycle_not_copied :
+    (hfinal copyH exTupleCycle (.ref 0)).err = none ∧
+    (hfinal copyH exTupleCycle (.ref 0)).value = .ref 2 ∧
+    (hfinal copyH exTupleCycle (.ref 0)).out.map (·.items) =
+      [[], [(.int 0, .ref 0)], [(.int 0, .ref 1), (.int 1, .atom (.int 1))]] := by
+  decide +kernel
+
+/-- The explicit-stack loop with its `id()`-keyed registry computes exactly what the memoised
+    bottom-up recursion `recRoot` computes (each container rebuilt once, registered before its
+    children so that back references terminate): same rebuilt heap, same result, same registry,
+    same sequence of enter / visit / exit calls — for EVERY heap (shared sub-objects and reference
+    cycles included) and every visit callback that does not raise (`NoRaise`: it never raises, or
+    `reraise_visit=False`); the recursion returns within fuel `hbound h`. -/
+theorem heap_remap_eq_rec (c : HCfg) (h : Heap) (id : Nat) (nd : Node) (hnr : NoRaise c)
+    (hnd : h[id]? = some nd) :
+    ∃ st' v, recRoot c h (.ref id) (hbound h) = some (st', v) ∧
+      hfinal c h (.ref id) = ⟨[], [], st'.reg, [], st'.out, v, st'.trace, none⟩ := by
+  obtain ⟨st', v, hr⟩ := recRoot_returns c h id nd hnr hnd
+  exact ⟨st', v, hr, hfinal_eq_recRoot c h (.ref id) _ st' v hr⟩
+
+/-- the same for an arbitrary (possibly raising) visit callback, whenever the recursion returns
+    (i.e. no visit raised on this input) -/
+theorem heap_remap_eq_rec_partial (c : HCfg) (h : Heap) (root : Obj) (n : Nat) (st' : RSt) (v : Obj)
+    (hr : recRoot c h root n = some (st', v)) :
+    hfinal c h root = ⟨[], [], st'.reg, [], st'.out, v, st'.trace, none⟩ :=
+  hfinal_eq_recRoot c h root n st' v hr
+
+example : NoRaise copyH := by
+  intro out p k v; simp [visitOut, copyH, hkeepVisit]
+
+example (vf : HVisitFn) : NoRaise ⟨vf, false⟩ := by
+  intro out p k v; simp only [visitOut]; split <;> simp
+
+/-- the recursion on the tuple cycle: it returns, with the placeholder inside (cf. `tuple_cycle_not_copied`) -/
+example : (recRoot copyH exTupleCycle (.ref 0) (hbound exTupleCycle)).map (fun r => (r.2, r.1.out.map (·.items))) =
+    some (.ref 2, [[], [(.int 0, .ref 0)], [(.int 0, .ref 1), (.int 1, .atom (.int 1))]]) := by
+  decide +kernel
 
 end C08
